@@ -271,6 +271,8 @@ Handle(i) ==
                   /\ NoCb /\ UNCHANGED <<gotExc, info>>
                   /\ IF seenRows THEN RRet("err") /\ UNCHANGED seenRows
                      ELSE RStay /\ seenRows' = (p.k # "hdr")
+    [] p.k = "end" -> \* the empty block that marks the end of the data: decoded, never handed to a callback
+         RStay /\ NoCb /\ UNCHANGED <<gotExc, seenRows, info>>
     [] p.k \in {"prog", "profile", "log", "pevents", "tcols"} ->
          RunCbs(i, CbsOf(p)) /\ UNCHANGED <<gotExc, seenRows, info>>
     [] OTHER -> \* "bad" code, well-formed unexpected packet, undecodable body, cut, truncated packet
@@ -346,7 +348,7 @@ CallerCancel(how) ==
 OnWire(k) == Len(SelectSeq(c2s, LAMBDA t : t.call = call /\ t.k = k))
 RequestComplete == OnWire("blank") = (IF cfg.scn = "select" THEN 1 ELSE 2)
 Causal(p) == CASE p.k = "eos" -> RequestComplete
-               [] p.k \in BlockKinds -> OnWire("query") = 1
+               [] p.k \in BlockKinds \cup {"end"} -> OnWire("query") = 1
                [] OTHER -> TRUE
 ServerSend ==
   /\ phase = "inDo" /\ sidx <= Len(cfg.script) /\ Causal(cfg.script[sidx])
